@@ -150,8 +150,31 @@ def _argv(case, tmp):
 # ----------------------------------------------------------------------------
 # state snapshot
 
+def _monitoring_tools():
+    """sys.monitoring (3.12+) tool names in use: cProfile registers itself there instead of
+    going through sys.setprofile"""
+    mon = getattr(sys, "monitoring", None)
+    if mon is None:
+        return None
+    return tuple(mon.get_tool(i) for i in range(6))
+
+
+def _free_monitoring_tools(keep):
+    mon = getattr(sys, "monitoring", None)
+    if mon is None:
+        return
+    for i in range(6):
+        if mon.get_tool(i) is not None and (keep is None or keep[i] is None):
+            try:
+                mon.set_events(i, 0)
+                mon.free_tool_id(i)
+            except Exception:
+                pass
+
+
 def _snap():
     return {
+        "sys.monitoring.tools": _monitoring_tools(),
         "gc.threshold": gc.get_threshold(),
         "gc.debug": gc.get_debug(),
         "traceback.format_exception": traceback.format_exception,
@@ -179,6 +202,7 @@ OWNER = {
     "sys.gettrace": ("coverage", "trace-hook"),
     "sys.settrace": ("coverage", "trace-hook"),
     "threading.gettrace": ("coverage", "trace-hook"),
+    "sys.monitoring.tools": ("profile", "profile-hook"),
     "sys.getprofile": ("profile", "profile-hook"),
     "sys.setprofile": ("profile", "profile-hook"),
     "threading.getprofile": ("profile", "profile-hook"),
@@ -292,6 +316,7 @@ def _check(case):
         threading.settrace(base["threading.gettrace"])
         sys.setprofile(base["sys.getprofile"])
         threading.setprofile(base["threading.getprofile"])
+        _free_monitoring_tools(base["sys.monitoring.tools"])
         sys.stdout, sys.stderr = base["sys.stdout"], base["sys.stderr"]
         gc.set_threshold(*base["gc.threshold"])
         gc.set_debug(base["gc.debug"])
@@ -433,12 +458,20 @@ def run(budget_s, seed, tier):
         if len(samples) < 5 and n_rand % 37 == 1:
             samples.append(case)
     from zope.testrunner.profiling import available_profilers
+    # a leak that already shows when the run ends normally subsumes the same leak at the
+    # other endings: one defect, one key
+    for key in list(findings):
+        owner, ending, what = key.split(":", 2)
+        if ending != "normal" and ending in ENDINGS and \
+                "%s:normal:%s" % (owner, what) in findings:
+            del findings[key]
     return {
         "cases": cases,
         "distinct": len(distinct),
         "rule": "a case = one in-process Runner.run() with a before/after snapshot of "
                 "gc.get_threshold, gc.get_debug, traceback.format_exception/print_exception, "
                 "sys.gettrace/settrace/getprofile/setprofile, threading.gettrace/getprofile, "
+                "sys.monitoring tool ids, "
                 "warnings.filters, sys.stdout, sys.stderr; non-trivial = at least one of the "
                 "six state-changing options is used; the harness starts every run from a "
                 "non-default state (gc threshold (701,11,9), an extra warnings filter, "
